@@ -543,7 +543,7 @@ func chunkFn(seed uint64) func() int {
 
 func runC05(c *wk.Ctx) {
 	rig.SendTimerStallIsVerdict = true
-	c.Meta("rule", "generated sessions of 1..12 Execute calls (serial, fully concurrent, staggered; a run ID may be used again once its run is over) on the fixture plugin (3 steps; any-typed payloads of every CBOR shape incl. strings spanning read chunks; declared error output, undeclared output, non-conforming output, panicking handler; inputs the step schema rejects; to-step signals with valid and invalid data) x transports {sync, buffered, chunked(seed)} per direction x {ATP v3 real server, ATP v1 fake server (serial)} x random pauses at yield points (overlay build) and the same sessions under the race detector. Oracle: every Execute result equals CallStep on a fresh identical plugin after CBOR normalisation; offline checker over the tapped byte streams (framing, exactly one terminal message per started run, no terminal for unknown runs, nonce of the run in its own work-done, no concurrent writers). non-trivial = a session with >=2 executes or a non-sync transport; distinct = hash of the generated session")
+	c.Meta("rule", "generated sessions of 1..12 Execute calls (serial, fully concurrent, staggered; a run ID may be used again once its run is over) on the fixture plugin (3 steps; any-typed payloads of every CBOR shape incl. strings spanning read chunks; declared error output, undeclared output, non-conforming output, panicking handler; inputs the step schema rejects; to-step signals with valid and invalid data) x transports {sync, buffered, chunked(seed)} per direction x {ATP v3 real server, ATP v1 fake server (serial)} x random pauses at yield points (overlay build) and the same sessions under the race detector. Oracle: every Execute result equals CallStep on a fresh identical plugin after CBOR normalisation; offline checker over the tapped byte streams (framing, exactly one terminal message per started run, no terminal for unknown runs, nonce of the run in its own work-done, no concurrent writers). non-trivial = a session with >=2 executes or a non-sync transport; distinct = hash of the generated session Step mode 'await': the step finishes only when the signal passed along with the call has reached it through the run's step data (in-process: CallSignal, then CallStep); a signal value whose handler takes until the session's calls are over.")
 	c.Meta("assumptions", []string{"handlers are pure functions of their input embedding the run's unique nonce, so results identify the run they belong to",
 		"unknown signal IDs are not generated here (C07/C11 cover them)"})
 	c.Floor("sessions", 30)
